@@ -233,6 +233,33 @@ func (g *gen) c13Base() []Op {
 			base = append(base, Step{A: "poison"})
 		}
 	}
+	if g.chance(0.12) {
+		// start from one of the degenerate states: a buffer that is empty
+		// while an envelope is open (its whole content was a closing marker,
+		// elided by the unsafe write that follows), an envelope that holds
+		// nothing, content that is one lone marker
+		var pre []Step
+		if manual {
+			pre = [][]Step{
+				{{A: "mw", I: 2, S: "›"}, {A: "mw", I: 0, S: ""}},
+				{{A: "mw", I: 2, S: "›"}, {A: "setmode", I: 0}, {A: "wS", S: ""}},
+				{{A: "mw", I: 0, S: ""}},
+				{{A: "mw", I: 2, S: "‹"}, {A: "mw", I: 1, S: ""}},
+				{{A: "mw", I: 2, S: "x›"}, {A: "mw", I: 0, S: ""}},
+			}[g.r.Intn(5)]
+		} else {
+			pre = [][]Step{
+				{{A: "pr", V: []Val{{K: "rs", S: "›"}}}, {A: "us", S: ""}},
+				{{A: "us", S: ""}},
+				{{A: "pr", V: []Val{{K: "rs", S: "‹"}}}, {A: "ss", S: ""}},
+				{{A: "pr", V: []Val{{K: "rs", S: "x›"}}}, {A: "us", S: ""}},
+			}[g.r.Intn(4)]
+		}
+		base = append(append([]Step{}, pre...), base...)
+		if len(base) > 6 && !long {
+			base = base[:6]
+		}
+	}
 	N := 0
 	if manual {
 		N = 1
